@@ -993,7 +993,7 @@ def _module_const_seqs(tree):
     return {k: v for k, v in val.items() if count.get(k) == 1 and k not in rebound}
 
 
-def _loop_sources(body, pars, consts):
+def _loop_sources(body, pars, consts, partial_names=()):
     """`for .. in NAME` (or in zip / enumerate / .items() over names) where NAME is bound ONCE, before the loop and outside any
     loop, to a tuple / list / dict literal of constants and never-rebound names, or is a module-level tuple of constants:
     the name in the loop header is replaced by the literal, so that the loop can be unrolled.  The assignment itself stays
@@ -1043,11 +1043,31 @@ def _loop_sources(body, pars, consts):
         for st in stmts:
             k[0] += 1
             here = k[0]
+            # `p = partial(f, a, k=x)` ... `p(b, j=y)`  ==  `f(a, b, k=x, j=y)`: p bound once (outside loops, earlier in an
+            # enclosing statement list), used exactly once, the names in the bound arguments never rebound afterwards
+            part = {nm: v for nm, v in avail.items() if v[0] == "partial" and fixed_before(nm, here)}
+            if part:
+                class Calls(ast.NodeTransformer):
+                    def visit_Call(self, n):
+                        self.generic_visit(n)
+                        if isinstance(n.func, ast.Name) and n.func.id in part and not any(isinstance(a, ast.Starred) for a in n.args) \
+                                and not any(kw.arg is None for kw in n.keywords):
+                            pc = part[n.func.id][1]
+                            given = {kw.arg for kw in n.keywords}
+                            changed[0] = True
+                            return ast.Call(func=copy.deepcopy(pc.args[0]), args=copy.deepcopy(pc.args[1:]) + n.args,
+                                            keywords=[copy.deepcopy(kw) for kw in pc.keywords if kw.arg not in given] + n.keywords)
+                        return n
+                for f, v in list(ast.iter_fields(st)):
+                    if isinstance(v, ast.expr):
+                        setattr(st, f, Calls().visit(v))
+                    elif isinstance(v, list) and f not in ("body", "orelse", "finalbody", "handlers", "cases"):
+                        setattr(st, f, [Calls().visit(x) if isinstance(x, (ast.expr, ast.keyword, ast.withitem)) else x for x in v])
             if isinstance(st, ast.For):
                 names = {n.id for n in ast.walk(st.iter) if isinstance(n, ast.Name) and isinstance(n.ctx, ast.Load)}
                 m = {}
                 for nm in names:
-                    if nm in avail and fixed_before(nm, here):
+                    if nm in avail and avail[nm][0] != "partial" and fixed_before(nm, here):
                         lit, _ = avail[nm]
                         n_uses = sum(1 for n in ast.walk(st.iter) if isinstance(n, ast.Name) and n.id == nm)
                         if isinstance(lit, ast.Tuple) or loads.get(nm, 0) == n_uses:
@@ -1070,6 +1090,13 @@ def _loop_sources(body, pars, consts):
                 if elems is not None and all(_leaf_ok(e) for e in elems) and all(
                         fixed_before(n.id, here) for e in elems for n in ast.walk(e) if isinstance(n, ast.Name)):
                     avail[tgt.id] = (v, here)
+                if isinstance(v, ast.Call) and ast.unparse(v.func) in partial_names and v.args and isinstance(v.args[0], ast.Name) \
+                        and loads.get(tgt.id, 0) == 1 and not any(isinstance(a, ast.Starred) for a in v.args) \
+                        and not any(kw.arg is None for kw in v.keywords) \
+                        and all(isinstance(n, (ast.Constant, ast.Name, ast.Attribute, ast.Call, ast.keyword, ast.Tuple, ast.Load))
+                                for a in list(v.args) + [kw.value for kw in v.keywords] for n in ast.walk(a)) \
+                        and all(fixed_before(n.id, here) for n in ast.walk(v) if isinstance(n, ast.Name)):
+                    avail[tgt.id] = ("partial", v)
             for f in ("body", "orelse", "finalbody"):
                 sub = getattr(st, f, None)
                 if isinstance(sub, list):
@@ -1170,7 +1197,10 @@ def _normalised(tree, fname, keep):
     pars = [a.arg for a in fn.args.args + fn.args.kwonlyargs]
     counter = [0]
     body = _simplify(copy.deepcopy(body_no_doc(fn)), funcs, set(keep), counter)
-    body, changed = _loop_sources(body, pars, _module_const_seqs(tree))
+    imap = _import_map(tree, getattr(tree, "_rel", "m.py"))
+    partial_names = {k for k, v in imap.items() if v == ("from", "functools", "partial")} | \
+        {k + ".partial" for k, v in imap.items() if v == ("module", "functools")}
+    body, changed = _loop_sources(body, pars, _module_const_seqs(tree), partial_names)
     if changed:
         body = _simplify(body, funcs, set(keep), counter)
     body = _expand_aliases(_flatten(body), pars)
@@ -1382,6 +1412,8 @@ def _touch(tree, fname, apply_name):
                 add(reads, part)          # `x.image.array += ...` reads too; `detector.image = ...` replaces a part
         else:
             add(reads, part)
+    canon = ["PCharacteristics", "PSignal", "PGeometry", "PImage", "POtherPart", "PWhole"]   # a set: the order says nothing
+    reads, writes = sorted(reads, key=canon.index), sorted(writes, key=canon.index)
     return f"{{| t_reads := [{'; '.join(reads)}]; t_writes := [{'; '.join(writes)}] |}}"
 
 
